@@ -19,7 +19,11 @@
        file has its end of line at all;
      - OPB: '+' in front of a non-negative coefficient or right-hand side, a
        coefficient 1 left out (an extension that ParseOPB reads), the header
-       comment "* #variable= n #constraint= m";
+       comment "* #variable= n #constraint= m", 0-2 blanks before and after
+       every line (ParseOPB trims the lines);
+     - every format: lines made of blanks only among the comment lines;
+     - DIMACS: the file may end right after the last "0", or right after the
+       header when there is no clause;
      - WCNF: the top weight is written iff it is not 0 (0 = "no top").
    The choice 0 is always the one the Go printers make, so that for DIMACS
    [print_cnf] is [render_dimacs []].
@@ -27,20 +31,17 @@
    LAYOUTS THAT THE FORMATS ALLOW BUT THE GO READERS REJECT are NOT generated
    (the theorems of Properties/C13.v would be false).  Each of them is a
    finding about gophersat, with a kernel-checked example in Proofs/Text.v:
-     D1 DIMACS  header line without final end of line (file "p cnf 0 0")  -> error
-     D2 DIMACS  last clause empty ("0") and no final end of line   -> clause lost
      O1 OPB     no blank between the relation and the right-hand side (">=2") -> error
      O2 OPB     no blank after "min:"                                  -> error
-     O3 OPB     blank after the final ';', or a line of blanks only   -> error
      O4 OPB     "#variable= n" ignored: NbVars = highest variable used
      O5 OPB     a line of 65536 bytes or more (bufio.Scanner)          -> error
-     W1 WCNF    a line of blanks only                                  -> panic
      W2 WCNF    a line of 65536 bytes or more -> rest of the file silently dropped
      W3 WCNF    clause on two lines -> silently misread (terminator not checked)
      E1 explain comment "c" not followed by a blank ("cfoo")          -> error
      E2 explain several clauses on a line / a clause on several lines -> misread
      E3 explain a line of 65536 bytes or more                          -> error
-   (render_dimacs does generate multi-line clauses and shared lines: they are
+   (D1 D2 O3 W1 of the first round are fixed in /repo and are now part of the
+   layouts.  render_dimacs does generate multi-line clauses and shared lines: they are
    read correctly by solver.ParseCNF; render_explain is one clause per line.) *)
 From Coq Require Import List ZArith Bool NArith String Ascii.
 From GS Require Import Spec.Base Spec.PB Spec.Solver Model.Text.
@@ -113,28 +114,29 @@ Fixpoint join_lines (omit : bool) (ls : list tline) : bytes :=
     end
   end.
 
-(* comment lines ([pre] ++ text, or [pre] ++ " " ++ text when [spaced]) and
-   empty lines *)
-Fixpoint filler (pre : bytes) (spaced : bool) (c : nat) (lay : layout)
+(* comment lines ([pre] ++ text, or [pre] ++ " " ++ text when [spaced], after
+   0-2 blanks when [leadok]) and lines made of 0-2 blanks *)
+Fixpoint filler (pre : bytes) (spaced leadok : bool) (c : nat) (lay : layout)
   : list tline * layout :=
   match c with
   | O => ([], lay)
   | S c' =>
     let (k, l1) := next lay in
     let (e, l2) := next l1 in
+    let (ld, l2') := sep0 l2 in
     if Nat.even k then
-      let (t, l3) := comment_text l2 in
-      let (r, l4) := filler pre spaced c' l3 in
+      let (t, l3) := comment_text l2' in
+      let (r, l4) := filler pre spaced leadok c' l3 in
       let body := if spaced then (match t with [] => [] | _ => SP :: t end) else t in
-      ((pre ++ body, Nat.odd e) :: r, l4)
+      (((if leadok then ld else []) ++ pre ++ body, Nat.odd e) :: r, l4)
     else
-      let (r, l3) := filler pre spaced c' l2 in
-      (([], Nat.odd e) :: r, l3)
+      let (r, l3) := filler pre spaced leadok c' l2' in
+      ((ld, Nat.odd e) :: r, l3)
   end.
 
-Definition gen_filler (pre : bytes) (spaced : bool) (lay : layout)
+Definition gen_filler (pre : bytes) (spaced leadok : bool) (lay : layout)
   : list tline * layout :=
-  let (k, l1) := next lay in filler pre spaced (Nat.modulo k 3) l1.
+  let (k, l1) := next lay in filler pre spaced leadok (Nat.modulo k 3) l1.
 
 (* (token, the separator that follows it) *)
 Definition tsep := (bytes * bytes)%type.
@@ -176,15 +178,15 @@ Fixpoint render_lits (c : clause) (lay : layout) : bytes * layout :=
    After the "0" of a clause (choice k):
      k mod 4 = 0, 1 : 0-2 blanks and an end of line
      k mod 4 = 2    : 1-3 blanks, the next clause starts on the same line
-     k mod 4 = 3    : for the last clause, if it is not empty: end of file
-                      right after the "0"; otherwise as 0. *)
+     k mod 4 = 3    : for the last clause: end of file right after the "0";
+                      otherwise as 0. *)
 Fixpoint render_clauses (F : cnf) (bol : bool) (lay : layout) : bytes :=
   match F with
   | [] =>
-    if bol then let (fl, _) := gen_filler (tok "c") false lay in join_lines false fl
+    if bol then let (fl, _) := gen_filler (tok "c") false false lay in join_lines false fl
     else []
   | c :: r =>
-    let (fl, l1) := if bol then gen_filler (tok "c") false lay else ([], lay) in
+    let (fl, l1) := if bol then gen_filler (tok "c") false false lay else ([], lay) in
     let (lead, l2) := sep0 l1 in
     let (ls, l3) := render_lits c l2 in
     let (k, l4) := next l3 in
@@ -192,8 +194,7 @@ Fixpoint render_clauses (F : cnf) (bol : bool) (lay : layout) : bytes :=
     let body := join_lines false fl ++ lead ++ ls ++ tok "0" in
     if Nat.eqb m 2 then
       let (s, l5) := sep1 false l4 in body ++ s ++ render_clauses r false l5
-    else if Nat.eqb m 3 && (match r with [] => true | _ => false end)
-            && (match c with [] => false | _ => true end) then
+    else if Nat.eqb m 3 && (match r with [] => true | _ => false end) then
       body
     else
       let (s, l5) := sep0 l4 in
@@ -202,10 +203,17 @@ Fixpoint render_clauses (F : cnf) (bol : bool) (lay : layout) : bytes :=
   end.
 
 Definition render_dimacs_b (lay : layout) (n : Z) (F : cnf) : bytes :=
-  let (fl, l1) := gen_filler (tok "c") false lay in
+  let (fl, l1) := gen_filler (tok "c") false false lay in
   let (h, l2) := render_header "cnf" [n; Z.of_nat (List.length F)] l1 in
   let (e, l3) := next l2 in
-  join_lines false fl ++ h ++ line_end (Nat.odd e) ++ render_clauses F true l3.
+  let (o, l4) := next l3 in
+  match F with
+  | [] =>
+    (* no clause: the file may end right after the header, without end of line *)
+    if Nat.odd o then join_lines false fl ++ h
+    else join_lines false fl ++ h ++ line_end (Nat.odd e) ++ render_clauses F true l4
+  | _ => join_lines false fl ++ h ++ line_end (Nat.odd e) ++ render_clauses F true l4
+  end.
 
 (* ------------------------------------------------------------------ *)
 (* DIMACS CNF for explain.ParseCNF: one clause per line.               *)
@@ -221,7 +229,7 @@ Fixpoint render_clause_lines (pre : bytes) (spaced : bool) (F : cnf) (lay : layo
   match F with
   | [] => ([], lay)
   | c :: r =>
-    let (fl, l1) := gen_filler pre spaced lay in
+    let (fl, l1) := gen_filler pre spaced false lay in
     let (b, l2) := render_clause_line [] c l1 in
     let (e, l3) := next l2 in
     let (rest, l4) := render_clause_lines pre spaced r l3 in
@@ -229,11 +237,11 @@ Fixpoint render_clause_lines (pre : bytes) (spaced : bool) (F : cnf) (lay : layo
   end.
 
 Definition render_explain_b (lay : layout) (n : Z) (F : cnf) : bytes :=
-  let (fl, l1) := gen_filler (tok "c") true lay in
+  let (fl, l1) := gen_filler (tok "c") true false lay in
   let (h, l2) := render_header "cnf" [n; Z.of_nat (List.length F)] l1 in
   let (e, l3) := next l2 in
   let (body, l4) := render_clause_lines (tok "c") true F l3 in
-  let (fl2, l5) := gen_filler (tok "c") true l4 in
+  let (fl2, l5) := gen_filler (tok "c") true false l4 in
   let (o, _) := next l5 in
   join_lines (Nat.odd o) (fl ++ (h, Nat.odd e) :: body ++ fl2).
 
@@ -244,7 +252,7 @@ Fixpoint render_wclause_lines (I : list wclause) (lay : layout) : list tline * l
   match I with
   | [] => ([], lay)
   | (w, c) :: r =>
-    let (fl, l1) := gen_filler (tok "c") false lay in
+    let (fl, l1) := gen_filler (tok "c") false false lay in
     let (b, l2) := render_clause_line [print_Zl w] c l1 in
     let (e, l3) := next l2 in
     let (rest, l4) := render_wclause_lines r l3 in
@@ -254,12 +262,12 @@ Fixpoint render_wclause_lines (I : list wclause) (lay : layout) : list tline * l
 (* I = (nbvars, top, clauses); the top weight is written iff it is not 0 *)
 Definition render_wcnf_b (lay : layout) (I : Z * Z * list wclause) : bytes :=
   let '(n, top, items) := I in
-  let (fl, l1) := gen_filler (tok "c") false lay in
+  let (fl, l1) := gen_filler (tok "c") false false lay in
   let nums := [n; Z.of_nat (List.length items)] ++ (if top =? 0 then [] else [top]) in
   let (h, l2) := render_header "wcnf" nums l1 in
   let (e, l3) := next l2 in
   let (body, l4) := render_wclause_lines items l3 in
-  let (fl2, l5) := gen_filler (tok "c") false l4 in
+  let (fl2, l5) := gen_filler (tok "c") false false l4 in
   let (o, _) := next l5 in
   join_lines (Nat.odd o) (fl ++ (h, Nat.odd e) :: body ++ fl2).
 
@@ -319,11 +327,13 @@ Fixpoint render_constrs (cs : list uc) (lay : layout) : list tline * layout :=
   match cs with
   | [] => ([], lay)
   | c :: r =>
-    let (fl, l1) := gen_filler (tok "*") false lay in
-    let (b, l2) := render_constr c l1 in
-    let (e, l3) := next l2 in
+    let (fl, l1) := gen_filler (tok "*") false true lay in
+    let (ld, la) := sep0 l1 in
+    let (b, l2) := render_constr c la in
+    let (tr, lb) := sep0 l2 in
+    let (e, l3) := next lb in
     let (rest, l4) := render_constrs r l3 in
-    (fl ++ (b, Nat.odd e) :: rest, l4)
+    (fl ++ (ld ++ b ++ tr, Nat.odd e) :: rest, l4)
   end.
 
 Definition opb_header_comment (n m : Z) : bytes :=
@@ -336,15 +346,17 @@ Definition render_opb_b (lay : layout) (P : ostate) : bytes :=
   let (e0, lb) := next la in
   let hdr := if Nat.odd k0
              then [(opb_header_comment n (Z.of_nat (List.length cs)), Nat.odd e0)] else [] in
-  let (fl1, l1) := gen_filler (tok "*") false lb in
+  let (fl1, l1) := gen_filler (tok "*") false true lb in
   let (minl, l2) :=
     match cost with
     | None => ([], l1)
-    | Some ts => let (b, lc) := render_min ts l1 in
-                 let (e, ld) := next lc in ([(b, Nat.odd e)], ld)
+    | Some ts => let (ld, lc0) := sep0 l1 in
+                 let (b, lc) := render_min ts lc0 in
+                 let (tr, lc1) := sep0 lc in
+                 let (e, ld') := next lc1 in ([(ld ++ b ++ tr, Nat.odd e)], ld')
     end in
   let (body, l3) := render_constrs cs l2 in
-  let (fl2, l4) := gen_filler (tok "*") false l3 in
+  let (fl2, l4) := gen_filler (tok "*") false true l3 in
   let (o, _) := next l4 in
   join_lines (Nat.odd o) (hdr ++ fl1 ++ minl ++ body ++ fl2).
 
